@@ -145,11 +145,14 @@ C16Queries(gc, post) ==
         : gsig \in ch.sigs}
       \cup UNION {
         LET u == ch.q.unsigned[v]
-            eligible == SignerVal(post, c, v) = v
+            \* the query is asked with the account of v; it answers for the validator that account acts for on this chain
+            \* (the one that registered it as orchestrator, else the validator it operates)
+            w == SignerVal(post, c, v)
         IN IF ~u.ok
-           THEN Fail(eligible, "C16:UnsignedQueryRefused", c)
-           ELSE Fail(RangeOf(u.ss) # {x.n : x \in {x \in ch.ss : ~Has(SigsOf(post, c, [t |-> "ss", n |-> x.n]), v)}}, "C16:UnsignedSignerSets", c)
-           \cup Fail({<<p[1], p[2]>> : p \in RangeOf(u.bat)} # {<<b.tok, b.n>> : b \in {b \in ch.bat : ~Has(SigsOf(post, c, [t |-> "bat", tok |-> b.tok, n |-> b.n]), v)}}, "C16:UnsignedBatches", c)
+           THEN Fail(w # "", "C16:UnsignedQueryRefused", c)
+           ELSE Fail(w = "", "C16:UnsignedQueryAnswered", c)
+           \cup Fail(RangeOf(u.ss) # {x.n : x \in {x \in ch.ss : ~Has(SigsOf(post, c, [t |-> "ss", n |-> x.n]), w)}}, "C16:UnsignedSignerSets", c)
+           \cup Fail({<<p[1], p[2]>> : p \in RangeOf(u.bat)} # {<<b.tok, b.n>> : b \in {b \in ch.bat : ~Has(SigsOf(post, c, [t |-> "bat", tok |-> b.tok, n |-> b.n]), w)}}, "C16:UnsignedBatches", c)
            \cup Fail(~IsAscending([i \in DOMAIN u.bat |-> u.bat[i][2]]) /\ Cardinality({p[2] : p \in RangeOf(u.bat)}) = Len(u.bat), "C16:UnsignedBatchOrder", c)
         : v \in DOMAIN ch.q.unsigned}
       : c \in DOMAIN post.ch}
@@ -246,8 +249,9 @@ MinterChecks(call, pre, a, res) ==
                 \cup Fail(cur1 # CursorAt(mx0, ScanTo(mx0, cur0)) \/ dsk1 # cur1, "C20:CursorConsistent", v)
          [] a.k = "ConnCrashScan" ->      \* a pass whose cursor is lost (crash between the hub's commit and the status file)
               IF ~CursorConsistent(mx0, cur0) \/ ~CursorConsistent(mx0, dsk0) THEN {}
-              ELSE   Fail(ClaimEvs(res.outs) # ScanClaims(mx0, cur0), "C20:SameNonce", v)
-                \cup Fail(dsk1 # dsk0, "infra:CrashKeptCursor", v)
+              ELSE   Fail(res.outs # <<>> /\ ClaimEvs(res.outs) # ScanClaims(mx0, cur0), "C20:SameNonce", v)
+                     \* what the status file says at the moment of the kill is consistent (and is what memory holds after the reload)
+                \cup Fail(~CursorConsistent(mx0, dsk1) \/ dsk1 # cur1, "C20:CursorConsistent", v)
          [] a.k = "ConnRestart" ->
               IF ~CursorConsistent(mx0, dsk0) THEN {}
               ELSE   Fail(~CursorConsistent(mx0, dsk1) \/ dsk1 # cur1, "C20:CursorConsistent", v)
